@@ -41,6 +41,8 @@ fn generate_book_data() -> Result<(), BuildError> {
             book = book_contents
                 .trim()
                 .split("\n\n")
+                // Note: games can be separated by more than one blank line
+                .map(|c| c.trim())
                 .filter(|c| c.starts_with("1."))
                 .try_fold(book, |mut book, movetext| {
                     let moves = BookParser::parse_movetext(movetext, &hasher)
